@@ -46,6 +46,14 @@ M = Tuple[str, str, str, str, str]
 
 MUTANTS: Dict[str, List[M]] = {
     "C01": [
+        ("skip_default reduces every dict value entry by entry", "_core.py", "                    if action is None or isinstance(action, (_ActionSubCommands, _ActionConfigLoad)):\n                        self._dump_delete_default_entries(val, default, prefix + key + \".\")", "                    self._dump_delete_default_entries(val, default, prefix + key + \".\")", "C01.g"),
+        ("skip_default reduces init_args with the outer parser", "_core.py", "                        parser._dump_delete_default_entries(init_args, default[\"init_args\"])", "                        self._dump_delete_default_entries(init_args, default[\"init_args\"])", "C01.g"),
+        ("skip_default dereferences a None default", "_core.py", "                    if not isinstance(default, dict) or val[\"class_path\"] != default.get(\"class_path\"):", "                    if val[\"class_path\"] != default.get(\"class_path\"):", "C01.g"),
+        ("skip_default drops a changed class with default init_args", "_core.py", "                        if init_args == {}:\n                            del val[\"init_args\"]", "                        if init_args == {}:\n                            del subcfg[key]", "C01.g"),
+        ("link targets stripped from defaults insist on a subcommand", "_link_arguments.py", "get_subcommands(parser, cfg, fail_no_subcommand=False)", "get_subcommands(parser, cfg)", "C01.g"),
+        ("nested files of a multifile save are not serialised", "_core.py", "                                with parser_context(load_value_mode=self.parser_mode):\n                                    self._dump_cleanup_actions(branch_cfg, self._actions, serialize_kwargs)\n", "", "C01.f"),
+        ("comments dump drops the quotes again", "_formatters.py", "        yaml.preserve_quotes = True\n", "", "C01.a"),
+        ("comments dump sets preserve_quotes after loading", "_formatters.py", "        yaml.preserve_quotes = True\n        cfg = yaml.load(cfg)\n", "        cfg = yaml.load(cfg)\n        yaml.preserve_quotes = True\n", "C01.a"),
         ("dumper loses the float resolver", "_loaders_dumpers.py", "    set_float_implicit_resolver(DefaultDumper)\n", "    pass\n", "C01.a"),
         ("loader float regex: dot-only alternative re-admits '._'", "_loaders_dumpers.py", "|\\\\.[0-9][0-9_]*(?:[eE][-+][0-9]+)?", "|\\\\.[0-9_]+(?:[eE][-+][0-9]+)?", "C01.a"),
         ("registered type polarity flipped", "_typehints.py", "        if serialize:\n            val = registered_type.serializer(val)\n\n    # Enum", "        if not serialize:\n            val = registered_type.serializer(val)\n\n    # Enum", "C01.e"),
@@ -130,6 +138,11 @@ MUTANTS: Dict[str, List[M]] = {
         ("Type arm imports classes again", "_typehints.py", "        elif not serialize and not isinstance(val, type):\n            path = val", "        elif not serialize:\n            path = val", "C10.a"),
     ],
     "C11": [
+        ("update copies leaves only", "_namespace.py", "            for key, val in value.items(branches=True):\n                if isinstance(val, Namespace):\n                    if not val and prefix + key not in self:\n                        self[prefix + key] = Namespace()\n                elif not only_unset", "            for key, val in value.items():\n                if not only_unset", "C11.c"),
+        ("as_dict drops null elements of lists", "_namespace.py", "        return type(val)(namespaces_as_dicts(v) for v in val)", "        return type(val)(namespaces_as_dicts(v) for v in val if v is not None)", "C11.d"),
+        ("as_dict converts only lists made of namespaces", "_namespace.py", "    if type(val) in {list, tuple}:", "    if type(val) in {list, tuple} and all(isinstance(v, Namespace) for v in val):", "C11.d"),
+        ("as_dict has no dict arm", "_namespace.py", "    if isinstance(val, dict):\n        return {k: namespaces_as_dicts(v) for k, v in val.items()}\n", "", "C11.d"),
+        ("as_dict converts one level of dict values", "_namespace.py", "        return {k: namespaces_as_dicts(v) for k, v in val.items()}", "        return {k: v.as_dict() if isinstance(v, Namespace) else v for k, v in val.items()}", "C11.d"),
         ("items() un-marks only branches", "_namespace.py", "            key = del_clash_mark(key)\n            if isinstance(val, Namespace):\n                if branches:", "            if isinstance(val, Namespace):\n                key = del_clash_mark(key)\n                if branches:", "C11.a"),
         ("__setattr__ stores unmarked names", "_namespace.py", "            super().__setattr__(add_clash_mark(name), value)", "            super().__setattr__(name, value)", "C11.a"),
         ("__contains__ looks up unmarked", "_namespace.py", "        return leaf_key in parent_ns.__dict__", "        return del_clash_mark(leaf_key) in parent_ns.__dict__", "C11.a"),
@@ -202,6 +215,9 @@ MUTANTS: Dict[str, List[M]] = {
         ("D lost its check", "_util.py", '            if "D" in mode and os.path.isdir(abs_path):', '            if "D" in mode and os.path.isfile(abs_path):', "C19.b"),
     ],
     "C20": [
+        ("Decimal dumped as float without read-back", "typing.py", "    return number if decimal_deserializer(number) == value else str(value)", "    return number", "C20.c.i"),
+        ("Decimal registered with float again", "typing.py", '    "decimal.Decimal",\n    decimal_serializer,\n    decimal_deserializer,', '    "decimal.Decimal",\n    float,\n    decimal_deserializer,', "C20.c.i"),
+        ("Decimal built from the binary float", "typing.py", "    return Decimal(repr(value) if isinstance(value, float) else value)", "    return Decimal(value)", "C20.c.i"),
         ("cast before validation", "typing.py", "            cls._validation_fn(cls, v)\n            return super().__new__(cls, cls._type(v))", "            v = cls._type(v)\n            cls._validation_fn(cls, v)\n            return super().__new__(cls, v)", "C20.a"),
         ("operator table swapped", "typing.py", '    operator.ge: ">=",\n    operator.lt: "<",', '    operator.ge: "<",\n    operator.lt: ">=",', "C20.b"),
         ("range step regex rejects negative steps", "typing.py", 're_range_start_stop_step = re.compile(r"^(-?\\d+),(-?\\d+),(-?\\d+)$")', 're_range_start_stop_step = re.compile(r"^(-?\\d+),(-?\\d+),(\\d+)$")', "C20.c.iii"),
@@ -275,6 +291,8 @@ def _seeded_for(prop: str) -> List[Tuple[str, str, List[str]]]:
             meta = json.load(open(mp))
         except Exception:
             continue
+        if meta.get("obsolete"):
+            continue  # a later fix: commit made the change harmless (or moot); kept for the record only
         fired = meta.get("checks_that_report_it", {}).get(prop)
         if fired and fired.get("rc") == 1:
             out.append((name, pp, fired.get("rules", [])))
